@@ -271,6 +271,8 @@ def build_bytes_from_sse(event: ServerSentEvent, charset: str) -> bytes:
     helper function for SendEventResponse
     """
     data: Iterable[bytes]
+    # work on a copy: the caller may yield the same dictionary again
+    event = event.copy()
     if "data" in event:
         # An event stream ends a line at CR, LF or CRLF only. str.splitlines() also
         # breaks at VT, FF, FS, GS, RS, NEL, LS and PS and drops a final empty line.
